@@ -157,4 +157,21 @@ theorem setter_local (s : FormatSpec) (g : GenFormat) (h : checkRows s g = true)
     file, function-local statics included.) -/
 def checkC16 (g : GenFormat) : Bool := g.statics.all (fun (_, _, isConst) => isConst) && g.opaqueFns.isEmpty
 
+/-- The library's hand-modelled *reading* functions and the parameters through which each may
+    store (its result objects): the Models of these functions return values and no memory,
+    which is faithful only if the C functions do not store through anything else — in
+    particular not through the PDU they read. -/
+def readerFunctions : List (String × List String) :=
+  [("Avtp_Can_GetCanPayloadLength", []), ("Avtp_Vss_GetVssPath", ["val"]),
+   ("Avtp_Vss_CalcVssPathLength", []), ("Avtp_Vss_GetVSSDataStringArrayLength", []),
+   ("Avtp_Vss_DeserializeStringArray", ["strings"]), ("Avtp_Vss_GetVssData", ["val"])]
+
+/-- Every reader the file defines stores only through its result parameters
+    (`algoWrites` is regenerated from the AST). -/
+def checkReaders (g : GenFormat) : Bool :=
+  g.algoWrites.all (fun (fn, ws) =>
+    match readerFunctions.lookup fn with
+    | some allowed => ws.all (fun w => allowed.contains w)
+    | none => true)
+
 end O1722
